@@ -60,6 +60,10 @@ class FakeDatetimeModule:
         self.timedelta = _real_datetime.timedelta
 
 
+class GuessCap(Exception):
+    """harness guard: the scripted quit never fired (the run is void, not a violation)"""
+
+
 class RestoreWorkLimit(Exception):
     """deterministic work bound on the restore walk (counted node visits, not wall time)"""
 
@@ -112,6 +116,9 @@ class SessionCtx:
     def on_guess(self, guess):
         self.guesses.append(guess)
         n = self.nlines = len(self.guesses)
+        cap = self.knobs.get("guess_cap")
+        if cap is not None and n > cap:
+            raise GuessCap("more than %d guesses before the scripted quit point was reached" % cap)
         self.clock.now += self.cost_per_guess
         tr = self.trigger
         if not tr:
@@ -216,11 +223,12 @@ def install():
             return orig_create(self, pt, is_honeyword, limit)
         rec = [tuple(tuple(x) for x in pt), ctx.nlines, None]
         ctx.expansions.append(rec)
-        if ctx.knobs.get("stub_expansion"):
+        is_m = len(pt) == 1 and pt[0][0] == "M"
+        stub = ctx.knobs.get("stub_expansion")
+        if stub is True or (stub == "non_markov" and not is_m):
             # large shipped rulesets: the pre-terminal is recorded, its (up to millions of) guesses are not generated
             rec[2] = 0
             return 0
-        is_m = len(pt) == 1 and pt[0][0] == "M"
         if is_m:
             ctx.omen_count += 1
             ctx.omen_start = ctx.nlines
